@@ -690,6 +690,8 @@ def check_views(ctx, ck, c, real, node, shape):
         atol = patol[name == "plot_variance"]
         if nt == "npfloat32" and not is_f32(lay):
             atol = F32_SLACK * EPS32 * psc
+        if name == "plot_ci_width":          # a difference of two bounds of the magnitude of the stored values (small levels: tiny)
+            atol = max(atol, RTOL * psc)
         if vals.shape != want.shape or not np.allclose(vals, want, rtol=RTOL, atol=atol):
             ctx.mismatch("plot_handover/" + tag, case, "the values handed to geometry.plot are not the exact statistic of the stored chain "
                          "(as function values for function samples in vector form)", want, vals)
@@ -712,7 +714,7 @@ def check_views(ctx, ck, c, real, node, shape):
             tag = "plot_ci/%s/pct=%s%s" % (sig0, pstr(pm), "" if nt == natural_form(pm) else "/type=" + nt)
             lo, hi = arr(lambda s, k=k: float(frac(s["ci"][k]["lo"]))), arr(lambda s, k=k: float(frac(s["ci"][k]["hi"])))
             wd = arr(lambda s, k=k: float(frac(s["ci"][k]["width"])))
-            atol = F32_SLACK * EPS32 * psc if (is_f32(lay) or nt == "npfloat32") else 0.0
+            atol = F32_SLACK * EPS32 * psc if (is_f32(lay) or nt == "npfloat32") else RTOL * psc
             calls, envs = [], []
             try:
                 with warnings.catch_warnings(), contextlib.redirect_stdout(io.StringIO()), _plot_capture(real.geometry, calls, envs):
